@@ -362,7 +362,8 @@ func (rt *runtime) cmplEvaluateNodeSwitchStatement(node *nodeSwitchStatement) Va
 					case resultReturn:
 						return value
 					case resultBreak:
-						return emptyValue
+						// (normal, V, empty): the value produced so far is kept (ECMA 262 12.11).
+						return result
 					}
 				case valueEmpty:
 				default:
